@@ -9,6 +9,7 @@ from urllib.parse import urlparse
 
 from cryptojwt import as_unicode
 from cryptojwt.exception import UnsupportedAlgorithm
+from cryptojwt.jwe.jwe import factory as jwe_factory
 from cryptojwt.jws.jws import factory as jws_factory
 from cryptojwt.jws.utils import left_hash
 from cryptojwt.jwt import JWT
@@ -285,6 +286,13 @@ def verify_id_token(msg, check_hash=False, claim="id_token", **kwargs):
             pass
 
     _jws = jws_factory(msg[claim])
+    if not _jws and kwargs.get("keyjar"):
+        # A signed token may come encrypted. The checks below are about the signed one,
+        # from_jwt() will deal with the encryption once more.
+        _jwe = jwe_factory(msg[claim])
+        if _jwe:
+            _decrypted = _jwe.decrypt(msg[claim], kwargs["keyjar"].get_decrypt_key(owner=""))
+            _jws = jws_factory(as_unicode(_decrypted))
     if not _jws:
         raise ValueError("{} not a signed JWT".format(claim))
 
